@@ -198,6 +198,10 @@ func (x *Exec) zzverif(name string, c *CallCtx) Value {
 	case "NoMerge":
 		x.noMerge = true
 		return nil
+	case "Concretize":
+		lo, _ := a[1].(IntV).T.ConstInt64()
+		hi, _ := a[2].(IntV).T.ConstInt64()
+		return IntV{B.Int(int64(x.ConcretizeInt(a[0].(IntV).T, int(lo), int(hi), "harness value @"+c.Pos())))}
 	case "Summarize":
 		x.localSumm[x.constStr(a[0], "function name")] = true
 		return nil
